@@ -329,6 +329,44 @@ def rule_expansion(ctx, F):
                               construct="condition on self.probability in HandRangeToken::into_iter")
 
 
+def rule_weight_notation(ctx, TM):
+    """every token shape accepts every weight literal of the notation: ':' + 0 | 1 | 0.d+ | 1.0+ (compared as finite sets of
+    words up to six characters, generated from the regex literal's syntax tree), and the weight may be omitted"""
+    from sa import regexlang
+    rule = "C05.weight-notation"
+    ctx.rule(rule, "each token shape's optional tail accepts ':' followed by any of 0, 1, 0.d+, 1.0+ (all words up to 6 characters compared)")
+    fn = TM.fn
+    want = regexlang.canonical_weights_upto(6)
+    seen = set()
+    for st in TM.sites:
+        for lit in st.regexes:
+            if lit is None or lit in seen:
+                continue
+            seen.add(lit)
+            try:
+                r = regexlang.parse(lit)
+                tail = r.optional_tail()
+            except regexlang.Unsupported:
+                continue      # reported by C10.weight-language
+            if tail is None:
+                ctx.violation(rule, f"{fn.path}|no-weight-tail|{st.kind}-{st.pair_variant}", f"regex {lit!r} has no optional ':weight' tail: a "
+                              f"weighted {st.kind}({st.pair_variant}) token is not parsed", fn=fn.path, file=fn.file, line=st.line)
+                continue
+            items = tail[1] if tail[0] == "seq" else [tail]
+            if not items or items[0] != ("class", frozenset([":"])):
+                continue      # reported by C10.weight-language
+            num = ("seq", items[1:]) if len(items) != 2 else items[1]
+            got = regexlang.words_upto(num, 6)
+            missing = sorted(want - got, key=lambda w: (len(w), w))
+            if missing:
+                ctx.violation(rule, f"{fn.path}|weight-rejected|{st.kind}-{st.pair_variant}",
+                              f"the weight tail of {lit!r} rejects the weight literal(s) {missing[:4]}: a token carrying such a weight is "
+                              f"dropped from the range", fn=fn.path, file=fn.file, line=st.line, construct="weight tail of the regex literal")
+            else:
+                ctx.ok(rule, {"regex": lit, "accepts": f"all {len(want)} canonical weight literals up to 6 characters"}, sample=(len(seen) == 1))
+    ctx.floor("token shapes with a weight tail (C05)", len(seen), 7)
+
+
 def rule_range_parser(ctx, F):
     rule = "C05.range-parser"
     ctx.rule(rule, "HandRange::from_str removes spaces, splits on ',', and inserts every expansion into one map in token order (later wins); empty text = empty range")
@@ -441,7 +479,7 @@ def run(ctx):
     TM = tokmodel.get(F)
     ctx.analysed([TM.fn])
     for f in (lambda: rule_layout(ctx, F, TM), lambda: rule_expansion(ctx, F), lambda: combos.check(ctx, F, "C05.combo-tables"),
-              lambda: rule_range_parser(ctx, F)):
+              lambda: rule_range_parser(ctx, F), lambda: rule_weight_notation(ctx, TM)):
         try:
             f()
         except Unrecognised as e:
